@@ -26,8 +26,9 @@ pub const DIR_NORMAL: [&str; 4] = ["pkg", "tests", "sub", "unit"];
 pub const DIR_IGNORED: [&str; 15] = [".git", "venv", "env", ".venv", "build", "dist", "node_modules", "__pycache__", ".tox", "target", "vendor", "site-packages", ".eggs", "proj.egg-info", ".mypy_cache"];
 pub const DIR_NEAR: [&str; 7] = ["builds", ".venvs", "environment", "dists", "egg-info", "my.egg-infos", "Build"];
 pub const FILE_SELECTED: [&str; 6] = ["conftest.py", "test_a.py", "test_.py", "b_test.py", "_test.py", "test_c.py"];
-pub const FILE_OTHER: [&str; 10] = ["test.py", "conftest.pyc", "Test_x.py", "test_x.txt", "mytest.py", "tests.py", "helper_1.py", "helper_2.py", "util.py", "__init__.py"];
-pub const IMPORT_TARGETS: [&str; 7] = ["helper_1", "helper_2", "util", "pkg.helper_1", "sub.util", "tests.helper_2", "pkg"];
+pub const FILE_OTHER: [&str; 11] = ["test.py", "conftest.pyc", "Test_x.py", "test_x.txt", "mytest.py", "tests.py", "helper_1.py", "helper_2.py", "util.py", "__init__.py", "types.py"];
+/// `types` is a project module named like a standard-library module: only a relative import means it
+pub const IMPORT_TARGETS: [&str; 8] = ["helper_1", "helper_2", "util", "pkg.helper_1", "sub.util", "tests.helper_2", "pkg", "types"];
 /// a prefix starting with `@link:` places the tree under the rest of the prefix and hands the scan a
 /// symlink to it (the client names the workspace through a non-canonical path)
 pub const PREFIXES: [&str; 8] = ["", "build/x", "env", "node_modules/n", "site-packages/p", "venv/lib", "@link:plain", "@link:build/x"];
@@ -89,7 +90,7 @@ fn dir_name(n: u8) -> &'static str {
 }
 
 fn file_name(n: u8) -> &'static str {
-    let n = n as usize % 16;
+    let n = n as usize % 17;
     if n < 6 {
         FILE_SELECTED[n]
     } else {
@@ -170,8 +171,8 @@ pub fn content_of(id: usize, f: &TFile) -> Vec<u8> {
 
 fn tree() -> impl Strategy<Value = Tree> {
     let d = (0u8..6, prop_oneof![4 => 0u8..4, 4 => 4u8..19, 2 => 19u8..26]).prop_map(|(parent, name)| TDir { parent, name });
-    let imp = (0u8..3, prop_oneof![2 => Just(0u8), 3 => Just(1u8), 1 => Just(2u8)], 0u8..7).prop_map(|(kind, level, target)| Imp { kind, level, target });
-    let f = (0u8..7, prop_oneof![6 => 0u8..6, 3 => 6u8..12, 5 => 12u8..16], vec(imp, 0..=2), prop_oneof![12 => Just(false), 1 => Just(true)])
+    let imp = (0u8..3, prop_oneof![2 => Just(0u8), 3 => Just(1u8), 1 => Just(2u8)], 0u8..8).prop_map(|(kind, level, target)| Imp { kind, level, target });
+    let f = (0u8..7, prop_oneof![6 => 0u8..6, 3 => 6u8..12, 5 => 12u8..17], vec(imp, 0..=2), prop_oneof![12 => Just(false), 1 => Just(true)])
         .prop_map(|(dir, name, imports, bad_utf8)| TFile { dir, name, imports, bad_utf8 });
     let ex = prop_oneof![3 => (0u8..26).prop_map(Ex::DirAll), 3 => (0u8..16).prop_map(Ex::AnyNamed), 3 => (0u8..12).prop_map(Ex::Exact), 2 => (0u8..8).prop_map(Ex::DirPath), 1 => (0u8..26).prop_map(Ex::AnyDir)];
     (vec(d, 0..=6), vec(f, 1..=10), prop_oneof![2 => Just(vec![]), 1 => vec(ex, 1..=2)]).prop_map(|(mut dirs, mut files, excludes)| {
@@ -181,6 +182,18 @@ fn tree() -> impl Strategy<Value = Tree> {
         let nd = dirs.len() as u8;
         for f in files.iter_mut() {
             f.dir %= nd + 1;
+            // the stdlib-named project module is only ever imported relatively (an absolute
+            // `import types` / pytest_plugins = ["types"] means the standard library in Python)
+            for im in f.imports.iter_mut() {
+                if im.target as usize % IMPORT_TARGETS.len() == 7 {
+                    if im.kind % 3 == 2 {
+                        im.kind = 0;
+                    }
+                    if im.level % 3 == 0 {
+                        im.level = 1;
+                    }
+                }
+            }
         }
         Tree { dirs, files, excludes }
     })
@@ -256,6 +269,9 @@ fn resolve_import(t: &Tree, files: &BTreeMap<String, (usize, &TFile)>, from_rel:
         }
     };
     let level = if im.kind % 3 == 2 { 0 } else { im.level % 3 };
+    if level == 0 && target == "types" {
+        return None; // the absolute name is the standard-library module
+    }
     if level >= 1 {
         let mut base = from_dir.clone();
         for _ in 1..level {
